@@ -553,7 +553,9 @@ def _key(case, run, v):
     causes = sorted(causes)
     symup = [c for c in causes if "symup" in c]
     if symup:
-        return "lexical-dotdot-across-symlink:tool=%s,where=%s" % (tool, "+".join(sorted({c.split(":")[0] for c in symup})))
+        where = {c.split(":")[0] for c in symup}
+        first = next(x for x in ("srcdir", "file", "dir", "operand") if x in where)
+        return "lexical-dotdot-across-symlink:tool=%s,where=%s" % (tool, first)
     e = v["effect"]
     if v["cat"] == "wrong-file":
         if causes:
@@ -570,6 +572,8 @@ def _key(case, run, v):
         if causes:
             return "missing-no-warning:tool=%s,cause=%s" % (tool, "+".join(causes))
         return "missing-no-warning:tool=%s,form=%s" % (tool, e["form"])
+    if v["cat"] == "not-owned" and "cmdline" in e["route"].split("+"):
+        return "not-owned:named=cmdline,cause=%s" % ("+".join(causes) or "-")
     return "%s:route=%s,cause=%s" % (v["cat"], e["route"], "+".join(causes) or "-")
 
 
@@ -657,7 +661,9 @@ def _reductions(case, v=None):
         used.update(fl["operand"].split("/"))
     if run.get("srcdir"):
         used.update(run["srcdir"]["operand"].split("/"))
-    free = [x for x in case["symlinks"] if os.path.basename(x[0]) not in used]
+    # a directory symlink that still occurs in some spelling stays (dropping it would turn a symlink case into
+    # a missing-directory case); file symlinks may go whenever the violation persists without them
+    free = [x for x in case["symlinks"] if x[1].endswith(".h") or os.path.basename(x[0]) not in used]
     if len(free) > 1:
         yield "bulk:symlinks", lambda: dict(_copy(case), symlinks=[x for x in case["symlinks"] if x not in free])
     if True:
